@@ -69,4 +69,12 @@ CHECKS = {
         "exhaustive execution is the right level.",
    note="Trusted base: vf/ref/align.py. Equidistant candidates admit either neighbour. Only the tables are judged, not how xarray builds them.",
    technique="runtime monitoring: after-construction invariant check of the real alignment tables against an executable reference model; unique-id conservation"),
+ "C11": dict(category="exploration",
+   text="icontract postconditions on the transformation methods plus a recorder on Optimizer.objective_function that captures x, the penalty and the live "
+        "real-space parameters at EVERY evaluation of real TRF / Dogbox / LM optimisations over decorated parameter sets (bounds, starts on bounds, fixed, "
+        "non-negative, expression); bounds, positivity, fixed values, vector/label correspondence are judged per evaluation and per history row, and Jacobian "
+        "columns against finite differences reconstructed from scipy's own recorded Jacobian evaluations. Transformation round trips on generated parameter sets. "
+        "Sampling is the right level: parameter sets and optimisation paths are unbounded.",
+   note="Trusted base: math.exp/log, the case description as the declared truth. 4-ulp latitude for log-transformed parameters on a bound; Jacobian columns below finite-difference noise are skipped. F19 (exp underflow to 0) attributed only for recorded x < -744.",
+   technique="runtime monitoring: icontract postconditions + per-evaluation recorder on the live optimiser state during real optimisations"),
 }
